@@ -146,7 +146,7 @@ def join(rng, items):
 
 
 def experiment(rng, base_dir, n_inst=None, n_beads=None, n_samples=None, units_pool=UNITS, float_frac=0.3,
-               npop=4, fractions=(0.3, 0.5, 0.85, 1.0, 0.0, 1), nfl=None, force_float_first=False, zero_fraction_first=False, permute_columns=0.3, big_first=False, id_style='plain'):
+               npop=4, fractions=(0.3, 0.5, 0.85, 1.0, 0.0, 1), nfl=None, force_float_first=False, zero_fraction_first=False, permute_columns=0.3, big_first=False, id_style='plain', blank_units_last=False):
     """Writes FCS files under base_dir and returns (instruments_df, beads_df, samples_df, info)."""
     os.makedirs(base_dir, exist_ok=True)
     n_inst = n_inst or int(rng.integers(1, 4))
@@ -183,6 +183,9 @@ def experiment(rng, base_dir, n_inst=None, n_beads=None, n_samples=None, units_p
     for k in range(n_samples):
         it = insts[int(rng.integers(n_inst))]
         isf = (rng.random() < float_frac) or (force_float_first and k == 0)
+        blank_row = bool(blank_units_last) and k == n_samples - 1 and k > 0
+        if blank_row:
+            isf = False      # an integer file (saturated fluorescence events) on a row that reports no fluorescence channel at all
         fn = 'sample_%d.fcs' % k
         ti = str(rng.choice(['full', 'full', 'nodate', 'nostep', 'none']))
         wt = rng.random() < 0.7
@@ -213,6 +216,10 @@ def experiment(rng, base_dir, n_inst=None, n_beads=None, n_samples=None, units_p
                         else:
                             row['Beads ID'] = ok[int(rng.integers(len(ok)))]['ID']
             row[ch + ' Units'] = u if u != '' else None
+        if blank_row:
+            for ch in it['fl']:
+                row[ch + ' Units'] = None
+            row['Beads ID'] = None
         if force_float_first and k == 0 and all(row[ch + ' Units'] is None for ch in it['fl']):
             row[it['fl'][0] + ' Units'] = 'RFI'
         srow.append(row)
